@@ -406,7 +406,7 @@ def replay(r):
     return the model's (q, q_A); compared with scipy's normal cdf evaluated on the oracle formulas"""
     model = r.get("model") or {}
     meta = r.get("meta") or {}
-    if meta.get("op") and meta.get("backend"):
+    if (meta.get("op") or meta.get("lifecycle")) and meta.get("backend"):
         from .BK_backend_ops import replay_backend_op
         return replay_backend_op(r)
 
